@@ -48,6 +48,7 @@ type Step struct {
 	Short   int    // if > 0: the header promises the whole payload but only Short-1 payload bytes are sent
 	Then    Action
 	Tag     int // caller's label (e.g. index of the history event carried), reported to the gate
+	Aux     int // caller's second label (the harness stores the index of the binlog file whose format is in force after this step)
 }
 
 // ErrPacket builds an ERR payload.
@@ -69,11 +70,11 @@ func EventPacket(ev []byte) []byte { return append([]byte{0}, ev...) }
 // ConnPlan scripts one accepted connection.
 type ConnPlan struct {
 	// faults before the dump
-	HandshakeErr  []byte // ERR payload sent instead of the handshake
-	CloseAtAccept bool   // close right after accept
+	HandshakeErr  []byte        // ERR payload sent instead of the handshake
+	CloseAtAccept bool          // close right after accept
 	StallAccept   chan struct{} // if non-nil: wait for it (or peer close) before the handshake
-	QueryErr      []byte // ERR payload in answer to the first COM_QUERY
-	AuthErr       []byte // ERR payload in answer to the handshake response
+	QueryErr      []byte        // ERR payload in answer to the first COM_QUERY
+	AuthErr       []byte        // ERR payload in answer to the handshake response
 
 	// OnDump builds the dump script from the decoded request.
 	OnDump func(req Command) []Step
@@ -84,11 +85,11 @@ type ConnPlan struct {
 	// results
 	mu         sync.Mutex
 	Commands   []Command
-	written    int32 // steps fully written
-	started    int32 // steps whose write has begun
+	written    int32         // steps fully written
+	started    int32         // steps whose write has begun
 	PeerClosed chan struct{} // closed when the replica's side of the socket is seen closed
 	Finished   chan struct{} // closed when the connection handler has returned
-	Err        error        // harness-level problem talking to the replica
+	Err        error         // harness-level problem talking to the replica
 	release    chan struct{}
 	relOnce    sync.Once
 	conn       net.Conn
